@@ -52,7 +52,7 @@ pub enum Profile {
     Cursive, // one cursive lookup
     Marks,   // mark-to-base / mark-to-ligature / mark-to-mark, optional GSUB ligature
     Mixed,   // anything (model correspondence only)
-    LigLig,  // a ligature built from a ligature, marks on every component (geometric predicate only)
+    LigLig,  // a ligature built from a ligature, marks on every component
 }
 
 fn profile_of(k: u64) -> Profile {
@@ -459,8 +459,8 @@ fn mk_lookup(r: &mut Rng, spec: &FontSpec, plain: (u64, u64), subtables: Vec<Pos
 pub const XSTREAM_BASE: u64 = 1_000_000;
 
 /// Font indices >= LIGLIG_BASE: two GSUB ligature lookups, the second of which ligates the first one's result with
-/// another glyph (or with itself), and mark-to-ligature anchors for every component.  Outside the Gallina model's
-/// GSUB domain (its ligature step assumes fresh ligature properties): judged by the geometric predicate only.
+/// another glyph (or with itself), and mark-to-ligature anchors for every component.  Judged by the model
+/// correspondence (Model/PosPipe.v `ligate` keeps the full component bookkeeping) and by the geometric predicate.
 pub const LIGLIG_BASE: u64 = 2_000_000;
 
 fn gen_liglig(seed: u64, index: u64) -> (FontSpec, Profile) {
